@@ -147,7 +147,12 @@ def run_check(pid, mod, tier, seed):
     for name, prop, fn, note in REG.syntactic:
         if prop != pid:
             continue
-        ok, detail = fn()
+        try:
+            ok, detail = fn()
+        except Exception as e:
+            traceback.print_exc()
+            print(f"CHECKER-FAILURE property={pid} syntactic check {name} crashed: {type(e).__name__}: {e}")
+            return 3
         syn_results.append({"name": name, "ok": bool(ok), "detail": detail, "note": note})
     if not obligations and not syn_results:
         print(f"CHECKER-FAILURE property={pid} no obligations generated")
@@ -181,7 +186,9 @@ def run_check(pid, mod, tier, seed):
         if s["ok"]:
             by_backend["syntactic"] = by_backend.get("syntactic", 0) + 1
     n_proof_obl = len([o for o in obligations if not o.expect_sat]) + len(syn_results)
-    n_proof_obl += 0
+    # a syntactic clause that fails exactly as a listed known finding is reported there, not counted as an obligation
+    known_syn = {k.get("obligation") for k in load_known_findings() if k.get("property") == pid and k.get("status", "open") == "open"}
+    n_proof_obl -= sum(1 for s in syn_results if not s["ok"] and s["name"] in known_syn)
     n_discharged = len(discharged) + sum(1 for s in syn_results if s["ok"])
 
     # ---- violations: replay refuted obligations on the real code
@@ -198,9 +205,25 @@ def run_check(pid, mod, tier, seed):
         if r["verdict"] == "sat":
             seen_f.add(kf.get("id"))
             known_hits.append((kf, o, None))
+    # the stored witness of each open finding is replayed natively on the current tree (decisive and cheap)
+    freplays = getattr(mod, "FINDING_REPLAYS", {})
     for k in known:
-        if k.get("region_in_contract") and k.get("id") not in seen_f and any(o.unit == k.get("unit") for o, _r in finding_checks + discharged):
+        fid = k.get("id")
+        if fid in freplays and fid not in seen_f:
+            try:
+                if SRC not in sys.path:
+                    sys.path.insert(0, SRC)
+                if REPO not in sys.path:
+                    sys.path.insert(1, REPO)
+                if freplays[fid](k.get("witness")):
+                    seen_f.add(fid)
+                    known_hits.append((k, None, None))
+            except Exception as e:
+                print(f"NOTE property={pid} witness replay of {fid} crashed: {type(e).__name__}: {e}")
+    for k in known:
+        if k.get("region_in_contract") and k.get("id") not in seen_f:
             stale_findings.append(k.get("id"))
+            print(f"NOTE property={pid} known finding {k.get('id')} did not reproduce on this tree (fixed? then move it to `fixed`)")
     os.makedirs(os.path.join(VERIF, "replays", pid), exist_ok=True)
     seen_names = set()
     for o, r in refuted:
@@ -280,7 +303,11 @@ def run_check(pid, mod, tier, seed):
             if r.get("model"):
                 print("        model:", {k: (list(v.values())[0] if len(str(v)) < 200 else str(v)[:200]) for k, v in r["model"].items() if k.startswith(("in!", "watch!"))})
     # ---- verdict
+    printed = set()
     for kf, o, rep in known_hits:
+        if kf.get("id") in printed:
+            continue
+        printed.add(kf.get("id"))
         print(f"KNOWN-FINDING: property={pid} {kf.get('what', kf.get('id'))}")
     status = "held"
     code = 0
